@@ -60,6 +60,19 @@ def holds(m, args, kws, env):
     return M.applicable(m, args, kws, env)
 
 
+def declared_conditions(a):
+    """(bound spec, condition id) of every Dependent[...] inside an annotation, at any depth (a bound may itself be
+    value-dependent, and a dependent type may be a member of a combination)"""
+    out = []
+    if a[0] == "dep":
+        out.append((a[1], a[2]))
+        out += declared_conditions(a[1])
+    elif a[0] in ("union", "inter"):
+        for x in a[1]:
+            out += declared_conditions(x)
+    return out
+
+
 def run_case(spec):
     res = R.CaseResult()
     env = H.build(spec["hier"])
@@ -82,12 +95,8 @@ def run_case(spec):
             trace = prog.H.trace()
             # bound guard: the condition is never asked about a value outside the bound
             for pid, v in preds.asked:
-                ok = False
-                for m in methods:
-                    for p in m["pos"] + m["kw"]:
-                        a = M.ann_of(p)
-                        if a[0] == "dep" and a[2] == pid and S.accepts(a[1], v, env) is True:
-                            ok = True
+                ok = any(q == pid and S.accepts(b, v, env) is True
+                         for m in methods for p in m["pos"] + m["kw"] for b, q in declared_conditions(M.ann_of(p)))
                 if not ok:
                     res.fail(f"predicate {pid} was evaluated on {v!r}, which is not an instance of any bound "
                              f"it was declared with (call args={c['args']} kw={c['kw']})", "C10:bound-guard")
